@@ -77,6 +77,8 @@ class EqHooks(Hooks):
                 s = self.side(v)
                 if s and p in ('pathHead', 'next') and i.dst.v not in (self.a, self.b):
                     self.walk[i.dst.v] = s
+                    # the walker names another node now: what was known about the nullness of the old one is void
+                    facts = frozenset(x for x in facts if not (isinstance(x, tuple) and x[0] in ('null', 'nonnull') and x[1] == '%s.seg' % s))
                     if p == 'next' and v == i.dst.v:
                         # advancing: facts about the current node become facts about "all nodes so far"
                         facts = frozenset(x for x in facts if not (isinstance(x, tuple) and len(x) > 1 and
@@ -124,7 +126,12 @@ class EqHooks(Hooks):
             v, p = field_path(e, self.a, self.b)
             s = self.side(v)
             if s:
-                tag = ('null' if is_null else 'nonnull', '%s.%s' % (s, (('seg.' if v not in (self.a, self.b) else '') + p)) if p else s)
+                if p:
+                    name = '%s.%s' % (s, ('seg.' if v not in (self.a, self.b) else '') + p)
+                else:
+                    # the URI pointer itself, or a walker over its segment list
+                    name = s if v in (self.a, self.b) else '%s.seg' % s
+                tag = ('null' if is_null else 'nonnull', name)
                 neg = ('nonnull' if is_null else 'null', tag[1])
                 if neg in facts:
                     return None
@@ -246,6 +253,9 @@ def run(ctx, chk):
                     diff = []
                 onenull = (has('null', 'a') and has('nonnull', 'b')) or (has('nonnull', 'a') and has('null', 'b')) or \
                     (has('null', 'a') != has('null', 'b'))
+                # one segment list ends where the other goes on
+                if (has('null', 'a.seg') and has('nonnull', 'b.seg')) or (has('nonnull', 'a.seg') and has('null', 'b.seg')):
+                    onenull = True
                 if not diff and not onenull:
                     false_bad.append((loc, _path_desc(fs)))
             else:
